@@ -503,6 +503,47 @@ CURATED = {
     "P24-enq-during-idle-retire": ([("start",), ("enq", "ret"), ("result", "c0", BIG), ("spawn",), ("sleep", 61), ("joinsub",), ("result", "s0", BIG)], [("enq", "ret")]),
 }
 
+# programs beyond the small scope (many tasks, many restarts, longer chains, larger pools): explored at the first levels of the ladder only
+
+
+def _many(n):
+    kinds = ["ret", "raise", "ret", "ret0", "ret", "raise0"]
+    return [("enq", kinds[i % len(kinds)]) for i in range(n)]
+
+
+CURATED.update({
+    "S1-twelve-tasks": ([("start",)] + _many(12) + [("join", None)] + [("result", "c%d" % i, BIG) for i in (0, 5, 11)] + [("stop",)], None),
+    "S2-ten-prequeued": (_many(10) + [("start",), ("join", None), ("stop",)], None),
+    "S3-four-restarts": ([("start",), ("enq", "ret"), ("join", None), ("stop",)] * 4 + [("start",), ("enq", "ret"), ("result", "c4", BIG), ("stop",)], None),
+    "S4-two-submitters-five-each": ([("start",), ("spawn",)] + _many(5) + [("joinsub",), ("join", None), ("stop",)], _many(5)),
+    "S5-bounded-queue-six": ([("start",)] + _many(6) + [("join", None), ("stop",)], None),
+    "S6-chain4": ([("start",), ("chain", 0, 4), ("chain", 1, 4), ("chain", 2, 4), ("chain", 3, 4), ("result", "c0", BIG)], None),
+    "S7-idle-cycles": ([("start",)] + [x for i in range(4) for x in (("enq", "ret"), ("result", "c%d" % i, BIG), ("sleep", 61))] + [("enq", "ret"), ("result", "c4", BIG)], None),
+    "S8-backlog-behind-gate": ([("start",), ("enq", "gated")] + _many(8) + [("open", "c0"), ("join", None), ("stop",)], None),
+    "S9-restart-with-backlog": ([("start",), ("enq", "gated"), ("enq", "ret"), ("enq", "ret"), ("spawn",), ("stop",), ("joinsub",), ("start",)] + _many(4)
+                                + [("join", None), ("stop",)], [("open", "c0")]),
+})
+SCALE = ["S1-twelve-tasks", "S2-ten-prequeued", "S3-four-restarts", "S4-two-submitters-five-each", "S5-bounded-queue-six", "S6-chain4", "S7-idle-cycles",
+         "S8-backlog-behind-gate", "S9-restart-with-backlog"]
+# (pool size, deepest ladder level): with more than 3 workers even the preemption-free level (free choices when a thread blocks) has
+# 10^5 schedules for these programs, so larger pools appear only in the 4-chain program
+SCALE_SIZES = {"quick": [((1, 0), 1), ((2, 1), 1), ((3, 1), 0)], "thorough": [((1, 0), 3), ((1, 1), 3), ((2, 0), 2), ((2, 1), 2), ((3, 0), 1), ((3, 1), 1), ((3, 3), 1)]}
+
+
+def scale_h(tier, names=None):
+    out = []
+    for n in (names if names is not None and tier == "quick" else SCALE):
+        prog, sub = CURATED[n]
+        sizes = SCALE_SIZES[tier]
+        if n == "S6-chain4":
+            # a 4-chain needs 4 workers (the property promises progress for up to max_threads mutually dependent tasks)
+            sizes = [((4, 0), 0), ((4, 2), 0)] if tier == "quick" else [((4, 0), 1), ((4, 2), 1), ((4, 4), 1), ((5, 1), 0)]
+        for size, deepest in sizes:
+            q = 1 if "bounded" in n else 0
+            out.append((spec(size, q, prog, sub, "sync"), "%s/%d.%d/q%d/sync" % (n, size[0], size[1], q), deepest))
+    return out
+
+
 ALPHABET = ["S", "X", "Er", "Ex", "Eg", "Ch", "O", "R", "J", "Jt", "Z"]
 
 
